@@ -36,9 +36,11 @@ type hcase struct {
 	Hops    int    `json:"hops"`
 }
 
+// capture collects everything one Writer.Write call hands to the transport (a frame may arrive
+// in more than one Write call of the byte writer; a capture is used for one frame only).
 type capture struct{ last []byte }
 
-func (c *capture) Write(p []byte) (int, error) { c.last = append([]byte{}, p...); return len(p), nil }
+func (c *capture) Write(p []byte) (int, error) { c.last = append(c.last, p...); return len(p), nil }
 
 func hop(in []byte, drw *dialect.ReadWriter) (message.Message, []byte, string) {
 	r := &frame.Reader{ByteReader: bytes.NewReader(in), DialectRW: drw}
